@@ -1,11 +1,14 @@
 #!/bin/bash
 # One bounded pass over every thorough tier (evidence is written): HTTP- and media-heavy checks get 15 minutes,
-# the pure ones 5.  usage: tools/thorough_pass.sh [seed]
+# the pure ones 5.  The evidence of each run is also copied to thorough/<id>.json (evidence/ is rewritten by
+# the next quick run).  usage: tools/thorough_pass.sh [seed]
 cd /verif
 export VERIF_SEED=${1:-1}
 for c in C16 C05 C17 C15 C18 C01 C02 C03 C06 C12 C14 C04 C09; do
   echo "== $c $(date +%H:%M:%S)"; VT_TIME_LIMIT=${LONG:-900} ./run.py $c --tier thorough 2>&1 | grep "signature=\|^OK\|HARNESS\|^VIOLATION" | cut -c1-300 | head -20
+  mkdir -p thorough; cp evidence/$c.json thorough/$c.json
 done
 for c in C07 C08 C10 C11 C13 C19 C20; do
   echo "== $c $(date +%H:%M:%S)"; VT_TIME_LIMIT=${SHORT:-300} ./run.py $c --tier thorough 2>&1 | grep "signature=\|^OK\|HARNESS\|^VIOLATION" | cut -c1-300 | head -20
+  mkdir -p thorough; cp evidence/$c.json thorough/$c.json
 done
